@@ -429,6 +429,8 @@ fn inspect_file(path: &Path, scratch: &Path) -> Result<Inspect, String> {
 
 fn file_hash(path: &Path) -> String {
     match std::fs::read(path) {
+        // an empty -wal file is what any SQLite connection that merely reads a WAL database leaves behind
+        Ok(b) if b.is_empty() && path.to_string_lossy().ends_with("-wal") => "absent".into(),
         Ok(b) => format!("{}:{:016x}", b.len(), crate::util::fnv(&hex::encode(&b))),
         Err(_) => "absent".into(),
     }
